@@ -286,6 +286,10 @@ def evaluate(ctx, node, case):
                     {"column": np.asarray(g)[:, 1] if g.ndim == 2 else None}))
     e = colerr(got, want, vw)
     out.append(("action", bool(e <= scale), {"rel_err_vs_|v|": e, "bound": scale, "condV": condV, "fmax": fmax, "n": n}))
+    if e <= scale and case["seed"] % 4 == 0 and not (case["alg"] in ("Lanczos", "Arnoldi") and (case["iters"] == "default" or n > 8)):
+        from harness.reuse import reuse_checks
+        v_other = P.operand(case["seed"] + 23, v.shape, vdt, "normal")
+        reuse_checks(ctx, lambda: apply(ctx, A, case, n), v, v_other, "f(A)", {"fn": case["fn"], "alg": case["alg"]}, rel_tol=1e-7)
     # algebraic consequences named in the property
     if case["fn"] == "sqrt":
         twice = ctx.call(lambda: Fop @ (Fop @ v))
